@@ -190,8 +190,9 @@ class FakedWBEMConnection(WBEMConnection):
 
         # Response delay in seconds. Any operation is delayed by this time.
         # Initialize before superclass init because otherwise logger may
-        # fail with this attribute not found
-        self._response_delay = response_delay
+        # fail with this attribute not found. Set through the property in
+        # order to validate the value (ValueError).
+        self.response_delay = response_delay
 
         # define attribute here to assure it is defined before CIM repository
         # created. Reset again after repository created.
